@@ -835,7 +835,17 @@ def all_paths_from_edge_pass(fn, edge, through_sites, to_sites=None):
     start = Site(edge[1], 0)
     if start in set(through_sites):
         return True
-    return fn.must_pass(start, through_sites, to_sites)
+    if fn.must_pass(start, through_sites, to_sites):
+        return True
+    # the same question over the paths on which values built along the way are read back consistently (a decision recorded
+    # as an enum / Option / bool and matched later): no exit / target is reachable before one of `through_sites`
+    tb = set(s_.bb for s_ in through_sites)
+    if edge[1] in tb:
+        return False
+    reach = fn.feasible_blocks_from(edge[1], stop_blocks=tb)
+    ends = set(s_.bb for s_ in (list(to_sites) if to_sites is not None else [])) | set(s_.bb for s_ in fn.exits())
+    bad = [b_ for b_ in reach if b_ in ends and b_ not in tb]
+    return not bad and bool(reach & tb)
 
 
 def nested_variant_edge(fn, call, path):
